@@ -147,6 +147,50 @@ theorem expr_positions_agree (T : Tables Code) (k : Code) :
     dispatch T .exprGroupId k = dispatch T .exprProject k :=
   Proofs.C20.expr_positions_agree T k
 
+/-! ## the consumers of the shared dispatchers (every part of a stage that carries names) -/
+
+/-- **Every consumer follows its dispatcher.**  `Generated.sites` are the parts of the stage
+    specifications that reach a dispatch helper (`_accumulate_group`, `_parse_expression`,
+    `process_pipeline`, `filter_applies`, and whatever else the source has that consults a table
+    of `$`-names), derived on every run from the syntax tree of `mongomock/aggregate.py` and a
+    traced run of every stage.  At each of them every probed name gets the disposition the
+    dispatcher of the helper gives it — or the site raises (it may be stricter: `newRoot` must
+    evaluate to a document).  A consumer that drops a name its dispatcher refuses (`output` of
+    `$bucket` with an accumulator that is not implemented) breaks this proof. -/
+theorem sites_follow_dispatch :
+    ∀ e ∈ Generated.siteVocab,
+      dispatch Generated.tables e.pos e.code = e.disp ∨ e.disp.raises = true :=
+  Proofs.C20.siteRows_ok_entries _ _ Proofs.C20.site_rows_ok
+
+/-- **No name is ignored at a consumer site** (modulo listed known findings — none today). -/
+theorem no_site_name_ignored :
+    ∀ e ∈ Generated.siteVocab, e.disp = .ignored →
+      (e.site, e.code) ∈ Generated.knownIgnoredSitePairs :=
+  Proofs.C20.siteRows_known_entries _ _ Proofs.C20.site_rows_known
+
+/-- **Unknown names raise at every consumer site**: a probed `$name` for which the site's
+    dispatcher has no branch at all makes the call raise there. -/
+theorem site_unknown_raises :
+    ∀ e ∈ Generated.siteVocab, e.pos.lazy = false → isOp e.code = true →
+      e.code ∉ recognised Generated.tables e.pos → e.disp.raises = true :=
+  fun e he h1 h2 h3 =>
+    Proofs.C20.site_unknown_raises Generated.tables e (sites_follow_dispatch e he) h1 h2 h3
+
+/-- **The list of sites is complete for the source**: every call of a dispatch helper in a
+    module-level function of `mongomock/aggregate.py` is reached by a probed site. -/
+theorem every_call_site_probed :
+    callSitesCovered Generated.callSites Generated.sites = true :=
+  Proofs.C20.call_sites_covered
+
+/-- non-vacuity: every site was probed with names that raise there (so a site of the list is
+    never an empty promise), and `$typo` is an unrecognised accumulator -/
+example : (List.range Generated.sites.length).all (fun i =>
+    Generated.siteVocab.any (fun e => e.site == i && e.disp.raises)) = true :=
+  Proofs.C20.every_site_has_a_refusal
+
+example : Position.accumulator.lazy = false ∧ isOp 478628377636 = true ∧
+    478628377636 ∉ recognised Generated.tables .accumulator := by decide +kernel
+
 /-! ## the option matrix -/
 
 /-- The full-strength statement: without opt-out no relevant option is accepted silently. -/
